@@ -197,11 +197,43 @@ where
     let (tx, rx) = std::sync::mpsc::channel();
     let _ = std::thread::Builder::new().name("e4-case".into()).spawn(move || {
         let rt = runtime(workers);
-        let r = rt.block_on(f());
-        let _ = tx.send(r);
+        let r = std::panic::catch_unwind(std::panic::AssertUnwindSafe(|| rt.block_on(f())));
+        let _ = tx.send(r.map_err(|p| p.downcast_ref::<String>().cloned().or_else(|| p.downcast_ref::<&str>().map(|s| s.to_string())).unwrap_or_default()));
         rt.shutdown_timeout(Duration::from_millis(200));
     });
-    rx.recv_timeout(deadline).ok()
+    match rx.recv_timeout(deadline) {
+        Ok(Ok(v)) => {
+            *LAST_CASE_FAILURE.lock().unwrap() = String::new();
+            Some(v)
+        }
+        Ok(Err(panic)) => {
+            // library code called directly by the case (not in a spawned task) panicked
+            *LAST_CASE_FAILURE.lock().unwrap() = format!("PANIC in library code called by the case: {}", panic);
+            None
+        }
+        Err(_) => {
+            *LAST_CASE_FAILURE.lock().unwrap() = String::new();
+            None
+        }
+    }
+}
+
+static LAST_CASE_FAILURE: std::sync::Mutex<String> = std::sync::Mutex::new(String::new());
+
+/// Turns the (class, message) a caller would report for a case that did not come back into the right one: a hang
+/// as given, a panic of library code called directly by the case as `panic/in-case`.
+pub fn hung_or_panicked(class_if_hung: String, msg_if_hung: String) -> (String, String) {
+    let why = last_case_failure();
+    if why.is_empty() {
+        (class_if_hung, msg_if_hung)
+    } else {
+        ("panic/library-code-called-by-the-case".to_string(), format!("{} [{}]", why, msg_if_hung.split(':').next().unwrap_or("")))
+    }
+}
+
+/// Why the last `block_on_deadline` on any thread returned `None`, if it was not the deadline.
+pub fn last_case_failure() -> String {
+    LAST_CASE_FAILURE.lock().unwrap().clone()
 }
 
 /// Hard per-case deadline: a failing case waits out a handful of 5 s horizons; nothing legitimate takes this long.
